@@ -241,23 +241,26 @@ Definition load_dump (e : env) (clear : bool) (s : S) : S :=
     else
     if self_ver (nd s) <? s_ver sn then s else
     let s := upd (fun n => n <| hist := s_hist sn |> <| enabled_ver := s_ver sn |>) s in
-    (* a journal that reaches back beyond the dump is trimmed to the dump's position *)
-    let s := if clear then s
-             else match get_entries (log (nd s)) (Some (eidx (s_e0 sn))) (Some 2) None with
-                  | [a; b] => if entry_eqb a (s_e0 sn) && entry_eqb b (s_e1 sn)
-                              then upd (fun n => n <| log := delete_to (log n) (eidx (s_e0 sn)) |>) s else s
-                  | _ => s
-                  end in
+    (* a log that holds the dump's two entries is trimmed to the dump's position and keeps what follows them *)
+    let kept := match get_entries (log (nd s)) (Some (eidx (s_e0 sn))) (Some 2) None with
+                | [a; b] => entry_eqb a (s_e0 sn) && entry_eqb b (s_e1 sn)
+                | _ => false
+                end in
+    let s := if kept then upd (fun n => n <| log := delete_to (log n) (eidx (s_e0 sn)) |>) s else s in
     let n := nd s in
     let keep := match log n with
                 | a :: b :: _ => entry_eqb a (s_e0 sn) && entry_eqb b (s_e1 sn)
                 | _ => false end in
-    let s := if clear || negb keep
+    let s := if negb keep
              then upd (fun n => n <| log := [s_e0 sn; s_e1 sn] |>
                                    <| replay_idx := N.min (replay_idx n) (eidx (s_e1 sn)) |>) s else s in
     let s := upd (fun n => n <| applied := eidx (s_e1 sn) |>) s in
     if dyn (cf e) then
-      update_cluster (filter (fun x => negb (self_is x (nd s))) (s_cluster sn)) s
+      let s := update_cluster (filter (fun x => negb (self_is x (nd s))) (s_cluster sn)) s in
+      (* install: the membership entries kept behind the snapshot's position stay in force *)
+      if clear && kept
+      then apply_membership false (get_entries (log (nd s)) (Some (eidx (s_e1 sn) + 1)) None None) s
+      else s
     else s
   | _ => s
   end.
@@ -709,8 +712,10 @@ Definition on_append_entries (e : env) (from : nid) (m : msg) (t c : N) (s : S) 
     | AESnap _ _ p =>
       let (s, done) := set_transmission p s in
       if done && load_dump_ok s then
-        let s := send_next_idx from None false true (load_dump e true s) in
-        ae_commit c (Some (last_idx (log (nd s)))) s
+        let s := load_dump e true s in
+        let v := applied (nd s) in          (* the snapshot's position: what is known to match the leader's log *)
+        let s := send_next_idx from (Some (v + 1)) false true s in
+        ae_commit c (Some v) s
       else if done then ae_commit c None (load_dump e true s)
       else ae_commit c None s
     | _ => s
